@@ -57,8 +57,13 @@ def run(ctx):
         args = ["60", "24", "100", "16", "12", "0"]
     else:
         sel = rows
-        args = ["150", "64", "300", "64", "40", "1"]
+        args = ["150", "64", "300", "17", "40", "1"]     # solo chains exist for at most 16 bookkeepers (17 is reported as skipped)
     res = ctx.driver(b, ["thresholds"] + args, input_obj=sel, timeout=3000)
+    for o in res:
+        if o.get("skipped"):
+            if not (o["what"].startswith("ledger-solo") and o["n"] > 16):
+                ctx.fail("ledger could not be created: %s" % o)
+            ctx.note("skipped: %s n=%d (%s)" % (o["what"], o["n"], o["err"][:80]))
     res = [o for o in res if "site" in o]
     byn = {r["n"]: r for r in rows}
     distinct = set()
